@@ -139,7 +139,9 @@ def gen_schema(rng, want=None, types_upper=None, profile=None):
         if with_id:
             attrs.append(['Id', T(id_type)])
         pool = [['Nm', 'string'], ['Val', 'integer'], ['Flag', 'boolean'], ['Amt', 'real'], ['Tag', 'string'],
-                ['Oid', 'unique_id'], ['_Aux', 'string'], ['N_2', 'integer']]
+                ['Oid', 'unique_id'], ['_Aux', 'string'], ['N_2', 'integer'],
+                # named like the parameters of the constructor API
+                ['Kind', 'integer'], ['Self', 'string']]
         n = rng.randint(0, profile.get('max_plain', 3))
         for a in rng.sample(pool, n):
             attrs.append([a[0], T(a[1])])
